@@ -155,3 +155,29 @@ Qed.
 Example wf_example :
   Forall wf_msg [Msg [112;63;97;61;49;38;98;61;50] None; Msg [120] (Some [10;38;0]); Msg [121] (Some [])].
 Proof. repeat constructor. Qed.
+
+(* ---- dispatch: handlers run one after the other, in the order sent ---- *)
+Fixpoint serialb (t : list (bool * Z)) : bool :=
+  match t with
+  | [] => true
+  | (true, i) :: t' =>
+      match t' with
+      | (false, j) :: r => (i =? j) && serialb r
+      | _ => false
+      end
+  | _ => false
+  end.
+
+Theorem dispatch_serial_l ms : serialb (dispatch_run ms) = true.
+Proof.
+  unfold dispatch_run. induction ms as [|[k i] ms IH]; [reflexivity|].
+  cbn [flat_map fst snd]. destruct k; cbn [app]; [|exact IH].
+  cbn [serialb]. rewrite Z.eqb_refl. exact IH.
+Qed.
+
+Theorem dispatch_order_l ms :
+  map snd (filter (fun e : bool * Z => fst e) (dispatch_run ms)) = map snd (filter (fun m : bool * Z => fst m) ms).
+Proof.
+  unfold dispatch_run. induction ms as [|[k i] ms IH]; [reflexivity|].
+  cbn [flat_map fst snd]. destruct k; cbn [app filter fst map snd]; rewrite IH; reflexivity.
+Qed.
